@@ -480,7 +480,7 @@ PROPS["C06"] = {
          "flags": {"quick": ["-maxloop", "100000000", "-maxsteps", "200000000000"], "thorough": ["-maxloop", "1000000000", "-maxsteps", "20000000000000"]}, "must_reach": {"VH_C05_ApplyRevert": ["end"]}},
     ],
     "tv_runs": {"quick": 0, "thorough": 0},
-    "bounds": {"quick": "RevertBlock of a block whose single v2 transaction revises a contract proven in a 4-leaf parent accumulator: the revert diffs carry the contract with its pre-block content; clients tracking the three other leaves (with their post-block proofs) end with the parent forest's paths; one v2 block spending a siacoin and a siafund element of a 4-leaf accumulator and creating an output of each kind, the claim and a miner payout, through the real ApplyBlock and RevertBlock (proof-of-work fields concrete): revert reports exactly apply's diffs reversed, every reported element and both bystanders verify against the child state after the apply, the parents verify as unspent and the bystanders' proofs are restored after the revert, re-applying gives the identical state and diffs; the accumulator-level apply/revert/re-apply equations of C05 (n <= 8, <= 3 updated, <= 3 added)", "thorough": "C05 part at n <= 16"},
+    "bounds": {"quick": "RevertBlock of a block whose single v2 transaction revises a contract proven in a 4-leaf parent accumulator: the revert diffs carry the contract with its pre-block content; clients tracking the three other leaves (with their post-block proofs) end with the parent forest's paths; one v2 block spending a siacoin and a siafund element of a 4-leaf accumulator and creating an output of each kind, the claim and a miner payout, through the real ApplyBlock and RevertBlock (proof-of-work fields concrete): revert reports exactly apply's diffs reversed, every reported element and both bystanders verify against the child state after the apply, the parents verify as unspent and the bystanders' proofs are restored after the revert, re-applying gives the identical state and diffs, and neither call writes to the block, the parent state or package-level memory; the accumulator-level apply/revert/re-apply equations of C05 (n <= 8, <= 3 updated, <= 3 added)", "thorough": "C05 part at n <= 16"},
     "outside": ["block shapes other than the two above (v1 transactions and v1 contracts, v2 resolutions, attestations, more than one transaction)", "reorg depth > 1 and competing continuations (each step starts from the state the previous step was shown to restore, so deeper reorgs follow by induction on the step)"],
     "stubs": SEQ_CUTS, "assumptions": SEQ_ASSUME,
 }
@@ -497,7 +497,7 @@ PROPS["C09"] = {
     ],
     "tv_runs": {"quick": 0, "thorough": 0},
     "bounds": {"quick": "on every explored path of ValidateV2Transaction / ValidateTransactionElements / ApplyV2Transaction (shapes: input+output, revision, resolution of each kind) the engine observes every store: none targets memory reachable from the transaction or the state, none targets package-level variables (shared mutable state is what makes concurrent calls interfere); V2Transaction.DeepCopy: every byte string / hash / proof / renewal / policy slice reachable from the copy is overwritten and no store lands in the original", "thorough": "same"},
-    "outside": ["goroutine schedules and the race detector are not encoded: 'concurrency-safe' is claimed only as 'no writes to shared memory on any path' (sync.Pool is modelled as returning a fresh hasher)", "determinism across map iteration orders; block-level ValidateBlock/ApplyBlock; v1 transactions; Copy/Move/Share of single elements"],
+    "outside": ["goroutine schedules and the race detector are not encoded: 'concurrency-safe' is claimed only as 'no writes to shared memory on any path' (sync.Pool is modelled as returning a fresh hasher)", "determinism across map iteration orders; block-level ValidateBlock (ApplyBlock/RevertBlock of one v2 block shape: write monitor and re-apply identity are part of C06's VH_C06_BlockRoundTrip); v1 transactions; Copy/Move/Share of single elements"],
     "stubs": SEQ_CUTS, "assumptions": SEQ_ASSUME,
 }
 MANIFEST_TEXT["C09"] = {
